@@ -300,13 +300,41 @@ def Field.toDictSt (f : Field) : Field × Tree := (f, f.toDict)
 
 def Field.tensorShape (f : Field) : List Nat := f.values.shape.dropLast
 
-/-- `Field.__getstate__`: `(shape, dtype, raw data, grid)` (version and Fortran flag omitted) -/
-def Field.getState (f : Field) : List Nat × String × List Rat × Grid :=
-  (f.values.shape, f.values.dtype, f.values.data, f.grid)
+/-- Memory layout of the data as far as `ndarray.__reduce__` distinguishes it: `f` = Fortran-
+contiguous and not C-contiguous (e.g. `Field(xy.T, grid)`), `c` = everything else (C-ordered
+arrays and strided or negative-stride views, whose bytes are taken in C order). -/
+inductive Layout where
+  | c | f
+deriving DecidableEq, Repr
 
-/-- `_field_reconstruct` followed by `__setstate__` -/
-def Field.setState (s : List Nat × String × List Rat × Grid) : Field :=
-  ⟨⟨s.2.1, s.1, s.2.2.1⟩, s.2.2.2⟩
+/-- the bytes `ndarray.__reduce__` stores: C order, or Fortran order (= C-order data of the array
+with all axes reversed) -/
+def Arr.raw (a : Arr) : Layout → List Rat
+  | .c => a.data
+  | .f => a.transposeAll.data
+
+/-- `Field.__getstate__()` = `ndarray.__reduce__()[2] + (grid,)`:
+`(version, shape, dtype, is_fortran, raw bytes, grid)` (version omitted) -/
+structure PickleState where
+  shape : List Nat
+  dtype : String
+  isFortran : Bool
+  raw : List Rat
+  grid : Grid
+deriving Repr
+
+def Field.getState (f : Field) (l : Layout) : PickleState :=
+  ⟨f.values.shape, f.values.dtype, l == .f, f.values.raw l, f.grid⟩
+
+/-- `_field_reconstruct` followed by `__setstate__`: Fortran-flagged bytes are read column-major -/
+def Field.setState (s : PickleState) : Field :=
+  let data := if s.isFortran then (Arr.transposeAll ⟨s.dtype, s.shape.reverse, s.raw⟩).data else s.raw
+  ⟨⟨s.dtype, s.shape, data⟩, s.grid⟩
+
+/-- A hand-built `__getstate__` that records the real memory-order flag but emits `tobytes()`
+(always C order): the class of defect this model dimension exists for. -/
+def Field.getStateBad (f : Field) (l : Layout) : PickleState :=
+  ⟨f.values.shape, f.values.dtype, l == .f, f.values.data, f.grid⟩
 
 /-! ## mode bases -/
 
